@@ -410,7 +410,7 @@ def totality(run, n_exh, n_rand, rand_len, n_edge):
         for k, v in SUBST.items():
             sx = sx.replace(k, v)
         return sx
-    strings = sorted(set(concrete(x) for x in inp["exhaustive"] + inp["random"]))
+    strings = sorted(set(concrete(x) for x in inp["exhaustive"] + inp["random"] + inp["deep"]))
     run.note("totality inputs from TLC: %d exhaustive (<= %d tokens of %d, and <= %d tokens in each grammar "
              "context), %d random (%d tokens)" % (len(inp["exhaustive"]), n_exh, len(inp["tokens"]), n_edge,
                                                    len(inp["random"]), rand_len))
